@@ -3,4 +3,4 @@ From Coq Require Import Extraction ExtrOcamlBasic.
 From ZV Require Import Base.Bytes Format.Compint Format.Header Format.ParseImpl Read.ReadSpec Read.CompRead.
 Extraction Language OCaml.
 Extraction "Extract/m_c02.ml" parse_impl no_pins open_state zck_read zck_close zck_get_chunk_data
-  zck_get_chunk_comp_data spec_verify spec_decode spec_chunk_data stored body.
+  zck_get_chunk_comp_data spec_verify spec_decode spec_chunk_data spec_chunk_content stored body.
